@@ -196,10 +196,7 @@ pub open spec fn key_enc_ok(k: CoseKey, m: Seq<(Value, Value)>) -> bool {
     && (k.base_iv@.len() > 0 ==> label_of(m[o_biv].0) == Some(Label::Int(5)) && m[o_biv].1 == Value::Bytes(k.base_iv))
     && (forall |i: int| o_p <= i < m.len() ==> label_of(#[trigger] m[i].0) == Some(k.params@[i - o_p].0) && m[i].1 == k.params@[i - o_p].1)
 }
-pub assume_specification [ <CoseKey as Default>::default ] () -> (k: CoseKey)
-    ensures
-        k.kty == KeyType::Assigned(iana::KeyType::Reserved) && k.key_id@.len() == 0 && k.alg is None
-        && k.key_ops@ == Set::<KeyOperation>::empty() && k.base_iv@.len() == 0 && k.params@.len() == 0;»
+»
 
 impl AsCborValue for CoseKey {«
     open spec fn dec_rel(value: Value, r: Result<Self>) -> bool {
